@@ -278,5 +278,6 @@ def run(ctx):
         ctx.sample(c)
     for k in range(0, len(cases), 6000):
         hist.run(ctx, "c12_driver.py", cases[k:k + 6000], to_term, HEADER, CASE_T, key_fn, describe, nontrivial,
-                 relation="C12.Corr.corr_codes (Model.step = Property(observe=...) on every step)", tag="cases%02d" % (k // 6000))
+                 relation="C12.Corr.corr_codes (Model.step = Property(observe=...) on every step)", tag="cases%02d" % (k // 6000),
+                 shard=300)
     proof_gate(ctx, ok, log, PROPS)
